@@ -236,6 +236,47 @@ func c06DrawImage(r *fw.Rec, rd *c06Reader, allowLarge bool) (img image.Image, c
 	return c06Paint(rng, mods, o), class + "/" + c06MutNames[mut], desc + " | mutation " + c06MutNames[mut] + " | " + o.String()
 }
 
+// c06PureDegenerate: the "pure barcode" shortcut of the 2-D readers takes the bounding box of
+// the dark pixels for the symbol; images of a few bars and dots make that box degenerate in every
+// way (narrower than the first run, zero width or height, not square, one pixel).
+func c06PureDegenerate(r *fw.Rec, rd *c06Reader) {
+	rng := r.Rng
+	for i := 0; i < 150; i++ {
+		cl := 11
+		if rng.Intn(5) == 0 {
+			cl = []int{2, 3, 5, 6}[rng.Intn(4)]
+		}
+		img, desc := c06Synthetic(rng, cl, false)
+		b := img.Bounds()
+		hints := map[gozxing.DecodeHintType]interface{}{gozxing.DecodeHintType_PURE_BARCODE: true}
+		if rng.Intn(4) == 0 {
+			hints[gozxing.DecodeHintType_TRY_HARDER] = true
+		}
+		for _, bz := range c06Binarizers {
+			bz := bz
+			var res *gozxing.Result
+			var err error
+			target := rd.name + ".Decode"
+			msg, stack, panicked := fw.Guard(func() {
+				bmp, e := gozxing.NewBinaryBitmap(bz.mk(gozxing.NewLuminanceSourceFromImage(img)))
+				if e != nil {
+					panic(e)
+				}
+				res, err = rd.mk(hints).Decode(bmp, hints)
+			})
+			data := func() map[string]interface{} {
+				return map[string]interface{}{"reader": rd.name, "binarizer": bz.name, "image_class": "synthetic/" + c06SynthNames[cl], "image": desc, "hints": "PURE_BARCODE", "width": b.Dx(), "height": b.Dy(), "png_base64": c06PNG(img)}
+			}
+			call := fmt.Sprintf("%s(%s, binarizer %s, hints {PURE_BARCODE})", target, desc, bz.name)
+			if !c06Judge(r, target, call, res != nil, err, msg, stack, panicked, true, data) {
+				return
+			}
+			r.Tally("pure-barcode reads of images of a few bars and dots")
+		}
+		r.NontrivialH(hash64s(rd.name + "|pure|" + desc + fmt.Sprint(rng.Uint64())))
+	}
+}
+
 // shared: a reader instance kept for the whole case (nil: a fresh one per call).
 func c06ImageOne(r *fw.Rec, rd *c06Reader, allowLarge bool, shared gozxing.Reader) bool {
 	rng := r.Rng
@@ -1052,6 +1093,58 @@ func c06QRStream(rng *fw.Rand, version int) (*c06BitWriter, string) {
 	return w, desc
 }
 
+// c06QRFNC1Percent: every alphanumeric text of 1..5 characters over {A, 1, %} (in a GS1 / AIM
+// symbol '%' is an escape: "%%" is a percent sign, a single '%' the separator GS), alone and
+// followed by a second segment, after FNC1 in first position, FNC1 in second position, and
+// without FNC1; with and without terminator.
+func c06QRFNC1Percent(r *fw.Rec) {
+	alpha := "A1%"
+	var texts []string
+	var gen func(prefix string, n int)
+	gen = func(prefix string, n int) {
+		if len(prefix) > 0 {
+			texts = append(texts, prefix)
+		}
+		if n == 0 {
+			return
+		}
+		for i := 0; i < len(alpha); i++ {
+			gen(prefix+string(alpha[i]), n-1)
+		}
+	}
+	gen("", 5)
+	for _, version := range []int{1, 10, 27} {
+		for _, text := range texts {
+			for fnc := 0; fnc < 3; fnc++ {
+				for tail := 0; tail < 3; tail++ {
+					w := &c06BitWriter{}
+					switch fnc {
+					case 1:
+						w.put(5, 4)
+					case 2:
+						w.put(9, 4)
+						w.put(37+len(text), 8)
+					}
+					segs := []qrref.Segment{{Mode: qrref.Alphanumeric, Data: []byte(text), ECI: -1}}
+					if tail == 1 {
+						segs = append(segs, qrref.Segment{Mode: qrref.Numeric, Data: []byte("42"), ECI: -1})
+					}
+					w.bits = append(w.bits, qrref.EncodeSegments(version, segs)...)
+					if tail == 2 {
+						w.put(0, 4)
+					}
+					desc := fmt.Sprintf("FNC1 variant %d, alphanumeric %q, tail %d", fnc, text, tail)
+					if !c06QRParse(r, w.bytes(len(w.bits), false), version, nil, "nil", desc) {
+						return
+					}
+					r.Tally("qr alphanumeric segments with percent signs after FNC1")
+				}
+			}
+		}
+	}
+	r.Nontrivial("qr-fnc1-percent")
+}
+
 func c06QRBitsCase(r *fw.Rec, n int) {
 	rng := r.Rng
 	for i := 0; i < n; i++ {
@@ -1404,7 +1497,7 @@ func c06AzECI(r *fw.Rec, lo, hi, step int) {
 // ---------------------------------------------------------------------------
 
 func c06(c *fw.Ctx) {
-	c.Rule("19 reader configurations (QR, Data Matrix, Aztec, QR multi reader through Decode and DecodeMultiple, EAN-13, EAN-8, UPC-A, UPC-E, multi-format UPC/EAN with and without POSSIBLE_FORMATS, Code 39 x {check, extended}, Code 93, Code 128, ITF, Codabar, RSS-14), each on seeded images through BOTH the hybrid and the global-histogram binariser: valid symbols of the reader's symbology (library writers, qrref/dmref/azref/onedref, an RSS-14 encoder) unmutated in a scanner-friendly rendering, or mutated at module level (flips, row/column deletion and duplication, crops through finder/guards, pasted noise, truncation, mirroring/inversion, combinations) and rendered with scale 1-4, quiet zone 0-10, arbitrary grey levels incl. low contrast, grey ramps, pixel noise and flips, alpha (NRGBA constant / noisy / symbol carried by alpha), RGBA tints, Gray16, Paletted, sub-images with a non-zero origin, canvases of 39/40/41 pixels and up to 800 pixels, one image in five turned by an arbitrary angle / sheared / scaled by a real factor; every second case keeps one reader instance for all its images; symbols of other symbologies; synthetic images (noise, constant, 1x1..3x3, stripes, checkerboards, finder look-alikes); hint maps over all twelve decode hints with well-typed values. Every RowDecoder on rows (random runs of length 1..400, symbol rows clean / with odd margins / mutated / ending mid-symbol, rows ending at every pixel of a symbol's last 14 modules with the row length 0/1/31 modulo 32, every row of length 1..12). The three raw decoders on valid, mutated, arbitrary, tiny and non-square matrices (Aztec: all 36 sizes, matching and non-matching matrix sizes and data-block counts, plus every size x the boundary data-block counts a mode message can announce). The three bit-stream parsers on random bytes/bits, reference-encoded streams cut after every bit (byte for Data Matrix), hostile segment sequences, every QR mode nibble x version class, every ECI designator 0..999999 (QR: every byte form; Aztec: FLG(n) digits), every Data Matrix stream of up to two codewords (thorough: three after each latch), every Aztec bit string up to 14 (thorough: 18) bits. Structured-append QR symbol sets (2..4 members built by qrref, byte/alphanumeric/numeric/kanji data, optional ECI, complete and incomplete) side by side through DecodeMultiple and single members through QRCodeReader. Three QR entry points on images tiled with finder patterns of growing side 40..520 with the CPU time of each call measured. Per call: recover(), CPU/heap budget, exactly one of result/error, and for the image-level readers an error of the NotFound/Checksum/Format kinds. distinct = distinct (target, input description, hints)")
+	c.Rule("19 reader configurations (QR, Data Matrix, Aztec, QR multi reader through Decode and DecodeMultiple, EAN-13, EAN-8, UPC-A, UPC-E, multi-format UPC/EAN with and without POSSIBLE_FORMATS, Code 39 x {check, extended}, Code 93, Code 128, ITF, Codabar, RSS-14), each on seeded images through BOTH the hybrid and the global-histogram binariser: valid symbols of the reader's symbology (library writers, qrref/dmref/azref/onedref, an RSS-14 encoder) unmutated in a scanner-friendly rendering, or mutated at module level (flips, row/column deletion and duplication, crops through finder/guards, pasted noise, truncation, mirroring/inversion, combinations) and rendered with scale 1-4, quiet zone 0-10, arbitrary grey levels incl. low contrast, grey ramps, pixel noise and flips, alpha (NRGBA constant / noisy / symbol carried by alpha), RGBA tints, Gray16, Paletted, sub-images with a non-zero origin, canvases of 39/40/41 pixels and up to 800 pixels, one image in five turned by an arbitrary angle / sheared / scaled by a real factor; every second case keeps one reader instance for all its images; symbols of other symbologies; synthetic images (noise, constant, 1x1..3x3, stripes, checkerboards, finder look-alikes, a few bars and dots - the latter also in bulk under PURE_BARCODE for the 2-D readers); hint maps over all twelve decode hints with well-typed values. Every RowDecoder on rows (random runs of length 1..400, symbol rows clean / with odd margins / mutated / ending mid-symbol, rows ending at every pixel of a symbol's last 14 modules with the row length 0/1/31 modulo 32, every row of length 1..12). The three raw decoders on valid, mutated, arbitrary, tiny and non-square matrices (Aztec: all 36 sizes, matching and non-matching matrix sizes and data-block counts, plus every size x the boundary data-block counts a mode message can announce). The three bit-stream parsers on random bytes/bits, reference-encoded streams cut after every bit (byte for Data Matrix), hostile segment sequences, every alphanumeric text of up to five characters over {A, 1, %} after FNC1 in first / second position, every QR mode nibble x version class, every ECI designator 0..999999 (QR: every byte form; Aztec: FLG(n) digits), every Data Matrix stream of up to two codewords (thorough: three after each latch), every Aztec bit string up to 14 (thorough: 18) bits. Structured-append QR symbol sets (2..4 members built by qrref, byte/alphanumeric/numeric/kanji data, optional ECI, complete and incomplete) side by side through DecodeMultiple and single members through QRCodeReader. Three QR entry points on images tiled with finder patterns of growing side 40..520 with the CPU time of each call measured. Per call: recover(), CPU/heap budget, exactly one of result/error, and for the image-level readers an error of the NotFound/Checksum/Format kinds. distinct = distinct (target, input description, hints)")
 	c.Assume("hint values have the Go types the readers assert (flag hints: any value incl. nil, as documented; CHARACTER_SET: string or encoding.Encoding; []gozxing.BarcodeFormat; []int; gozxing.ResultPointCallback incl. a nil one); images are at least 1x1, rows at least 1 long; Aztec detector results name 1..32 layers (compact 1..4) and at least one data block")
 	c.Assume("budget: the framework's 20 CPU-s / 1.5 GiB per case; in the tiled-finder-pattern cases one call needing more than 2 CPU-s on an image of at most 520x520 pixels is charged (signature <target>:budget:tiled-finder-patterns) because the following sizes of the escalation exceed the case budget (measured: DecodeMultiple 200x200 = 50 CPU-s)")
 	c.Assume("DESIGN C06 don't-care: DecodeMultiple returning an empty non-nil slice with nil error; raw decoders, row decoders and parsers may return any non-nil error (kind tallied, not charged); results are not checked for content")
@@ -1419,6 +1512,11 @@ func c06(c *fw.Ctx) {
 	rowCases := c.Pick(100, 4000)
 	for ri := range c06Readers {
 		rd := &c06Readers[ri]
+		if !rd.oneD {
+			for i := 0; i < c.Pick(12, 200); i++ {
+				c.Run(fmt.Sprintf("pure/%s/%d", rd.name, i), func(r *fw.Rec) { c06PureDegenerate(r, rd) })
+			}
+		}
 		for i := 0; i < imgCases; i++ {
 			i := i
 			c.Run(fmt.Sprintf("img/%s/%d", rd.name, i), func(r *fw.Rec) {
@@ -1515,6 +1613,7 @@ func c06(c *fw.Ctx) {
 	}
 	c.Floor("aztec/decoder.Decode size x announced data-block count sweep", 700)
 	c.Floor("rows ending in the last modules of a symbol, length 0/1/31 mod 32", 20000)
+	c.Floor("pure-barcode reads of images of a few bars and dots", 10000)
 	for _, t := range []string{"qrcode/decoder.Decode", "datamatrix/decoder.Decode", "aztec/decoder.Decode"} {
 		c.Floor(t+" result", 300)
 		c.Floor(t+" errors", 1000)
@@ -1528,6 +1627,8 @@ func c06(c *fw.Ctx) {
 	c.Floor("images rotated / sheared", 3000)
 	c.Floor("aztec/decoder.Decode inputs of another size than the layer count implies", 300)
 
+	c.Run("qr-fnc1-percent", func(r *fw.Rec) { c06QRFNC1Percent(r) })
+	c.Floor("qr alphanumeric segments with percent signs after FNC1", 9000)
 	bitCases := c.Pick(200, 6000)
 	for i := 0; i < bitCases; i++ {
 		i := i
